@@ -1,5 +1,8 @@
 CONSTANT SigCache = FALSE
+CONSTANT Devices <- MCDevices
 SPECIFICATION Spec
+INVARIANT RevisionDecides
+INVARIANT RevisionMatters
 INVARIANT FreshSignature
 INVARIANT ParsedIsBuilt
 INVARIANT ReadIsCurrent
